@@ -1,5 +1,5 @@
 CONSTANTS
-  HeadVariants = {3}
+  HeadVariants = {4}
   PixVariants = {2, 5}
   WithPreamble = {TRUE}
   Files <- AllFiles
